@@ -78,6 +78,25 @@ def call_args(src, call_re, what):
     return split_args(src[p + 1:close_paren(src, p)])
 
 
+def aliases(src):
+    """`let NAME = <field path>;` bindings: a local that merely names a configuration field (or a clone of it)"""
+    al = {}
+    for m in re.finditer(r"\blet\s+(?:mut\s+)?(\w+)\s*(?::[^=;]+)?=\s*&?\s*(\w+(?:\s*\.\s*\w+)+)\s*(?:\.\s*clone\s*\(\s*\))?\s*;", src):
+        al[m.group(1)] = re.sub(r"\s", "", m.group(2))
+    return al
+
+
+def resolve(expr, al):
+    """follow local aliases: an argument that is a bare local bound to a field path stands for that path"""
+    e = re.sub(r"\.clone\(\)|\.as_ref\(\)|&|\s", "", expr)
+    for _ in range(6):
+        if re.fullmatch(r"\w+", e) and e in al:
+            e = al[e]
+        else:
+            break
+    return e
+
+
 def same(a, b):
     return a == b or (a, b) in RENAMES or (b, a) in RENAMES
 
@@ -93,10 +112,11 @@ def gen(read):
     args = call_args(lib, r"ChannelManager::new\s*\(", "ChannelManager::new(..) in server/src/lib.rs")
     if len(params) != len(args):
         raise Shape("wiring: ChannelManager::new arity")
+    al = aliases(lib)
     for p, a in zip(params, args):
         if p.startswith("max_"):
             n += 1
-            if last_ident(a) != p:
+            if last_ident(resolve(a, al)) != p:
                 bad.append(f"server/src/lib.rs: ChannelManager::new parameter `{p}` receives `{a}`")
     # 2. the locals handed over are read from the field of the same name
     for mm in re.finditer(r"let\s+(max_\w+)\s*=\s*c2s_config\.limits\.(\w+)\s*;", lib):
@@ -127,7 +147,7 @@ def gen(read):
     for p, a in zip(ip, ia):
         if p.startswith("c2s_max_"):
             n += 1
-            if "c2s_" + last_ident(a) != p:
+            if "c2s_" + last_ident(resolve(a, al)) != p:
                 bad.append(f"server/src/lib.rs: init_modulator parameter `{p}` receives `{a}`")
     for mm in re.finditer(r"limits\.(max_\w+)\s*=\s*modulator_service\.adjusted_(\w+)\s*;", lib):
         n += 1
